@@ -19,6 +19,14 @@ call on an equally shaped input).
 Sub-check `pad_modes`: every documented FORM of pad_mode - all named numpy.pad modes, their keyword variants
 and callables - for Deltas and Stack; the reference applies the rule to one whole vector along the filtered /
 time axis at a time.
+
+Sub-check `routes`: the object travels between its constructor and the call (copy.copy, copy.deepcopy, pickle
+round trips, after a use, the original after a shallow copy was used) with every constructor argument
+non-default; the reference model for the as-constructed arguments decides on every route.
+
+Sub-check `refusals`: sequences of three calls on ONE object with a call outside the property's domain (refused
+or not: not judged) before a call inside it, inputs of 0..4 dimensions, negative configured axes; calls inside the
+domain must equal a fresh object's / the reference model, documented public attributes must keep their values.
 """
 import itertools
 
@@ -56,6 +64,12 @@ ASSUMPTIONS = [
     "histories, held results: call number i of an un-merged sequence gets data variant i (another generic "
     "tensor of the same shape and dtype); numpy.shares_memory decides aliasing; apply(in_place=False) "
     "'makes a copy' (PostProcessor.apply docstring), so its result may not share memory with any input",
+    "routes: copy.copy / copy.deepcopy / pickle (highest protocol, protocol 2) of a Deltas / Stack are the same "
+    "processor (apply is a function of the constructor arguments, the input and axis); a route that raises is "
+    "skipped, not a violation; callables given as pad_mode are module-level functions (picklable by reference)",
+    "refusals: what a call outside the property's domain does (raise / return) is not judged; the attributes "
+    "documented on the classes (Stack.num_vectors, Stack.time_axis, Deltas.concatenate, Deltas.num_deltas: the "
+    "non-underscore entries of vars(obj)) are expected to read after any call what they read after construction",
 ]
 
 DTYPES = ("float64", "float32", "int32", "int16")
@@ -100,7 +114,7 @@ NATIVE_MODES = ("edge", "constant", "reflect", "symmetric", "wrap", "mean", "max
 def _mode(m):
     """JSON-able mode -> (numpy.pad mode: a name or a callable, kwargs for np.pad, kwargs for the reference)
       "name"           a numpy.pad mode with its defaults
-      "constant:V" / "linear_ramp:V"   constant_values / end_values = V
+      "constant:V" / "linear_ramp:V"   constant_values / end_values = V ("A,B": the pair (A, B))
       "name:odd"       reflect_type='odd';   "name:statN"   stat_length=N
       "call:F[:V]"     the callable CALLABLES[F] (with padder=V)"""
     if ":" in m:
@@ -113,7 +127,8 @@ def _mode(m):
             return name, dict(reflect_type="odd"), dict(reflect_type="odd")
         if v.startswith("stat"):
             return name, dict(stat_length=int(v[4:])), dict(stat_length=int(v[4:]))
-        v = float(v)
+        # "constant:A,B" / "linear_ramp:A,B": the (before, after) pair form of the keyword
+        v = tuple(float(a) for a in v.split(",")) if "," in v else float(v)
         k = "constant_values" if name == "constant" else "end_values"
         return name, {k: v}, {k: v}
     return m, {}, {}
@@ -132,7 +147,8 @@ def _pad_fn(m):
             name(vec, (widths[0], widths[1]), 0, dict(padkw))
             return vec
         return fn
-    if name in NATIVE_MODES and set(padkw) <= {"constant_values", "end_values"}:
+    if name in NATIVE_MODES and set(padkw) <= {"constant_values", "end_values"} and \
+            not any(isinstance(a, tuple) for a in padkw.values()):
         return None
     return lambda v, widths: np.pad(v, (widths[0], widths[1]), name, **padkw)
 
@@ -244,8 +260,9 @@ def _deltas_one(x, pristine, dtype, axis, window, mode, nd, concat, ta, in_place
     return v, o
 
 
-def _deltas_one3(x, pristine, dtype, axis, window, mode, nd, concat, ta, in_place, orders, tags0):
-    """as _deltas_one, returns (violations, observation, result array or None)"""
+def _deltas_one3(x, pristine, dtype, axis, window, mode, nd, concat, ta, in_place, orders, tags0, route=None):
+    """as _deltas_one, returns (violations, observation, result array or None); route: how the object gets
+    from its constructor to the call (see _travel)"""
     from pydrobert.speech import post
 
     name, padkw, _ = _mode(mode)
@@ -261,6 +278,11 @@ def _deltas_one3(x, pristine, dtype, axis, window, mode, nd, concat, ta, in_plac
     if r[0] != "ok":
         return [core.violation(dict(tags, what="init_exception", exc=r[1]),
                                "Deltas(...) raised %s: %s" % (r[1], r[2]), case)], None, None
+    if route is not None:
+        tags["route"], case["route"] = route, route
+        r = computers.call(_travel, r[1], route)
+        if r[0] != "ok":
+            return [], ("route_failed", route, r[1]), None
     arg = x if not in_place else np.array(x, copy=True)
     r = computers.call(r[1].apply, arg, axis, in_place)
     if r[0] != "ok":
@@ -374,9 +396,9 @@ def _replay_deltas(case, seed):
     shape, dtype = tuple(case["shape"]), case["dtype"]
     x = sig.ro(_data(seed, shape, dtype, case.get("variant", 0)))
     orders = _ref_orders(x, case["num_deltas"], case["window"], case["axis"], case["mode"])
-    v, _ = _deltas_one(x, np.array(x, copy=True), dtype, case["axis"], case["window"], case["mode"],
-                       case["num_deltas"], case["concatenate"], case["target_axis"],
-                       case["in_place"], orders, dict(proc="Deltas", dtype_kind=_kindof(dtype)))
+    v, _, _ = _deltas_one3(x, np.array(x, copy=True), dtype, case["axis"], case["window"], case["mode"],
+                           case["num_deltas"], case["concatenate"], case["target_axis"],
+                           case["in_place"], orders, dict(proc="Deltas", dtype_kind=_kindof(dtype)), case.get("route"))
     return core.result(v)
 
 
@@ -385,7 +407,7 @@ def _replay_deltas(case, seed):
 STACK_PADS = (None, "edge", "constant", "constant:7")
 
 
-def _stack_one(x, pristine, dtype, nv, time_axis, axis, pad, in_place, tags0):
+def _stack_one(x, pristine, dtype, nv, time_axis, axis, pad, in_place, tags0, route=None):
     from pydrobert.speech import post
 
     ndim = x.ndim
@@ -395,7 +417,8 @@ def _stack_one(x, pristine, dtype, nv, time_axis, axis, pad, in_place, tags0):
         name, padkw, _ = _mode(pad)
         cv = padkw.get("constant_values", 0)
     T = x.shape[time_axis]
-    fn = None if pad is None or (name in ("edge", "constant") and set(padkw) <= {"constant_values"}) \
+    fn = None if pad is None or (name in ("edge", "constant") and set(padkw) <= {"constant_values"} and
+                                 not isinstance(cv, tuple)) \
         else (_pad_fn(pad) or (lambda v, widths: np.pad(v, (widths[0], widths[1]), name, **padkw)))
     tags = dict(tags0, pad_mode=name if fn is None else _mode_class(pad), path="2d" if ndim == 2 else "nd",
                 incomplete_run=bool(T % nv), short=bool(T < nv))
@@ -405,14 +428,19 @@ def _stack_one(x, pristine, dtype, nv, time_axis, axis, pad, in_place, tags0):
     if r[0] != "ok":
         return [core.violation(dict(tags, what="init_exception", exc=r[1]),
                                "Stack(...) raised %s: %s" % (r[1], r[2]), case)], None, None
+    if route is not None:
+        tags["route"], case["route"] = route, route
+        r = computers.call(_travel, r[1], route)
+        if r[0] != "ok":
+            return [], ("route_failed", route, r[1]), None
     arg = x if not in_place else np.array(x, copy=True)
     r = computers.call(r[1].apply, arg, axis, in_place)
     if r[0] != "ok":
         return [core.violation(dict(tags, what="exception", exc=r[1]),
                                "apply raised %s: %s" % (r[1], r[2]), case)], None, None
     got = r[1]
-    cvd = np.array(cv).astype(dtype).item()
     if fn is None:
+        cvd = np.array(cv).astype(dtype).item()
         want = ref.stack_apply(x, nv, time_axis, axis, name, cvd)
     else:
         # "numpy.pad of the WHOLE time axis up to the next multiple of num_vectors, then stack": the rule
@@ -497,7 +525,7 @@ def _replay_stack(case, seed):
     x = sig.ro(_data(seed, shape, dtype, case.get("variant", 0)))
     v, _, got = _stack_one(x, np.array(x, copy=True), dtype, case["num_vectors"], case["time_axis"],
                            case["axis"], case["pad"], case["in_place"],
-                           dict(proc="Stack", dtype_kind=_kindof(dtype)))
+                           dict(proc="Stack", dtype_kind=_kindof(dtype)), case.get("route"))
     return core.result(v)
 
 
@@ -966,6 +994,338 @@ def _eval_pad_modes(pt, seed):
                        sample=dict(proc=proc, shape=list(shape), dtype=dtype, inner=inner))
 
 
+# ------------------------------------------------------------------ routes: the object as it reaches the call
+#
+# apply() is a function of (constructor arguments, input, axis).  The lattices above call apply() on the object
+# the constructor returned; here the object TRAVELS first - copy.copy, copy.deepcopy, pickle round trips (highest
+# protocol and protocol 2), also after it was used, and the original after a shallow copy of it was used - and
+# every constructor argument is non-default (context window, target_axis, concatenate, every kind of numpy.pad
+# keyword incl. the (before, after) pair form and callables with a keyword; Stack: num_vectors, time_axis,
+# pad_mode + keywords).  The oracle is the reference model for the AS-CONSTRUCTED options on every route.  A
+# route that itself raises (object not copyable / picklable) is counted as skipped: the property is about apply.
+
+ROUTES = ("constructed", "copy", "deepcopy", "pickle", "pickle2", "used.copy", "used.deepcopy", "used.pickle",
+          "lent", "deepcopy.pickle")
+RT_DELTAS_MODES = ("edge", "reflect", "constant:1.5", "constant:1.5,-2", "linear_ramp:2", "linear_ramp:5,-5",
+                   "reflect:odd", "symmetric:odd", "mean:stat2", "minimum:stat3", "call:pad_with:-3",
+                   "call:neg_edge")
+RT_DELTAS_SHAPES = ((5,), (3, 4), (2, 3, 2))
+RT_STACK_MODES = (None, "edge", "constant:7", "constant:7,-3", "linear_ramp:2", "reflect:odd", "mean:stat2",
+                  "call:robust:-3")
+RT_STACK_SHAPES = ((5, 2), (2, 5), (5, 2, 2), (2, 5, 3), (3, 2, 5))
+RT_DTYPES = ("float64", "int16")
+
+
+def _warm(obj):
+    """one ordinary apply() on another tensor (another ndim than most lattice inputs); outcome not judged here"""
+    x = np.arange(24.0).reshape(2, 3, 4)
+    ta = getattr(obj, "time_axis", 0)
+    computers.call(obj.apply, x, (ta + 1) % 3 if isinstance(ta, int) else -1, False)
+
+
+def _travel(obj, route):
+    import copy
+    import pickle
+
+    for step in route.split("."):
+        if step == "constructed":
+            pass
+        elif step == "copy":
+            obj = copy.copy(obj)
+        elif step == "deepcopy":
+            obj = copy.deepcopy(obj)
+        elif step == "pickle":
+            obj = pickle.loads(pickle.dumps(obj, pickle.HIGHEST_PROTOCOL))
+        elif step == "pickle2":
+            obj = pickle.loads(pickle.dumps(obj, 2))
+        elif step == "used":
+            _warm(obj)
+        elif step == "lent":
+            # a shallow copy is made and used; the object itself goes on
+            _warm(copy.copy(obj))
+        else:
+            raise core.HarnessError("unknown route step %r" % (step,))
+    return obj
+
+
+def _rt_points():
+    pts = []
+    for sh in RT_DELTAS_SHAPES:
+        for d in RT_DTYPES:
+            for axis in list(range(len(sh))) + [-1]:
+                for window in (1, 3):
+                    pts.append(["Deltas", list(sh), d, axis, window])
+    for sh in RT_STACK_SHAPES:
+        for d in RT_DTYPES:
+            for ta in range(-len(sh), len(sh)):
+                pts.append(["Stack", list(sh), d, ta])
+    return pts
+
+
+def _eval_routes(pt, seed):
+    proc, shape, dtype = pt[0], tuple(pt[1]), pt[2]
+    ndim = len(shape)
+    x = sig.ro(_data(seed, shape, dtype))
+    pristine = np.array(x, copy=True)
+    viol, evals, nontriv, skipped, obs = [], 0, 0, 0, set()
+    tags0 = dict(proc=proc, dtype_kind=_kindof(dtype), sub="routes")
+    if proc == "Deltas":
+        axis, window = pt[3], pt[4]
+        layouts = ((True, 0), (True, -ndim), (False, 0), (False, -1), (False, -(ndim + 1)))
+        for mode in RT_DELTAS_MODES:
+            orders = _ref_orders(x, 2, window, axis, mode)
+            for nd in (1, 2):
+                for concat, ta in layouts:
+                    for route in ROUTES:
+                        v, o, _ = _deltas_one3(x, pristine, dtype, axis, window, mode, nd, concat, ta, False,
+                                               orders, dict(tags0, mode=_mode_class(mode)), route)
+                        evals += 1
+                        viol.extend(v)
+                        if o is not None and o[0] == "route_failed":
+                            skipped += 1
+                        else:
+                            nontriv += int(route != "constructed")
+                        obs.add((route, _mode_class(mode), None if o is None else o[:2]))
+            if len(viol) >= 40:
+                break
+        inner = "%d pad modes x num_deltas {1,2} x 5 (concatenate, target_axis) x %d routes" % (
+            len(RT_DELTAS_MODES), len(ROUTES))
+    else:
+        ta = pt[3]
+        for nv in (2, 3, 4):
+            for axis in range(ndim):
+                if axis == ta % ndim:
+                    continue
+                f_axis = axis if ta >= 0 else axis - ndim
+                for pad in RT_STACK_MODES:
+                    for route in ROUTES:
+                        for ip in ((False, True) if route in ("constructed", "pickle") else (False,)):
+                            v, o, _ = _stack_one(x, pristine, dtype, nv, ta, f_axis, pad, ip, tags0, route)
+                            evals += 1
+                            viol.extend(v)
+                            if o is not None and o[0] == "route_failed":
+                                skipped += 1
+                            else:
+                                nontriv += int(route != "constructed")
+                            obs.add((route, str(pad), o))
+            if len(viol) >= 40:
+                break
+        inner = "num_vectors {2,3,4} x feature axis x %d pad modes x %d routes" % (len(RT_STACK_MODES), len(ROUTES))
+    return core.result(viol, evals=evals, nontrivial_count=nontriv, obs=sorted(map(str, obs)), obs_is_set=True,
+                       skipped=skipped or None,
+                       sample=dict(proc=proc, shape=list(shape), dtype=dtype, inner=inner))
+
+
+# ------------------------------------------------------------------ refusals: histories with a refused call
+#
+# ONE object, sequences of three apply() calls (a, b, c) in which at least one of a, b lies OUTSIDE the
+# property's domain for this object - the documented RuntimeError (feature axis == time axis), a 1-D tensor for
+# Stack, a numpy.pad error (keywords the mode does not take; 'reflect' on an empty filtered axis), a target_axis
+# the input's number of dimensions does not have, a 0-d tensor, a list - and c lies inside it.  Whether a call
+# outside the domain raises or returns is NOT judged.  Judged: every call inside the domain returns what a fresh
+# object returns / the reference model defines (the calls of a sequence have different numbers of dimensions,
+# configured axes are negative too), and the documented public attributes (num_vectors, time_axis; concatenate,
+# num_deltas) read after every call, refused or not, what they read after construction.
+
+RF_STACK_SHAPES = ((5, 4), (3, 6, 2), (2, 3, 5, 2))
+RF_DELTAS_SHAPES = ((4,), (3, 4), (2, 3, 2), (0, 3))
+RF_BAD_KW = dict(constant_values=3)   # numpy.pad: unsupported keyword for mode 'edge'
+
+
+def _public(obj):
+    return dict((k, computers.canon_value(v)) for k, v in vars(obj).items() if not k.startswith("_"))
+
+
+class _Refusals(_History):
+    def __init__(self, cfg, seed):
+        self.cfg, self.seed = cfg, seed
+        self.proc = cfg["proc"]
+        self.exp, self.fresh_viol, self.nvar = {}, [], 3
+        shapes = RF_DELTAS_SHAPES if self.proc == "Deltas" else RF_STACK_SHAPES
+        small, full = [], []
+        for shape in shapes + ((), (3,)) if self.proc == "Stack" else shapes + ((),):
+            nd = len(shape)
+            for axis in (list(range(-nd, nd)) + [nd]) if nd else [0, -1]:
+                for dtype, ip in (("float64", False), ("int16", True)):
+                    L = [list(shape), axis, dtype, ip]
+                    full.append(L)
+                    if dtype == "float64" and (axis >= 0 or nd == 0):
+                        small.append(L)
+        L = [[3, 4], 0, "float64", False, "list"]
+        full.append(L)
+        small.append(L)
+        self.letters, self.small = full, small
+        for L in full:
+            if self.kind(L) is None:
+                for var in range(self.nvar):
+                    self.exp[(self.key(L), var)] = self._expected(L, var)
+
+    def make(self):
+        from pydrobert.speech import post
+
+        c = self.cfg
+        if c.get("pad") == "bad":
+            return post.Stack(c["num_vectors"], time_axis=c["time_axis"], pad_mode="edge", **RF_BAD_KW)
+        return _History.make(self)
+
+    def _expected(self, L, var=0):
+        if self.cfg.get("pad") == "bad":
+            # inside the domain only where nothing is padded: any padding mode defines the same result
+            keep, self.cfg = self.cfg, dict(self.cfg, pad="edge")
+            try:
+                return _History._expected(self, L, var)
+            finally:
+                self.cfg = keep
+        return _History._expected(self, L, var)
+
+    def kind(self, L):
+        """None: the call is inside the property's domain for this configuration; else why it is not"""
+        c = self.cfg
+        shape, axis = L[0], L[1]
+        nd = len(shape)
+        if len(L) > 4:
+            return "not_an_array"
+        if nd == 0:
+            return "zero_dim"
+        if not -nd <= axis < nd:
+            return "axis_out_of_range"
+        if self.proc == "Stack":
+            if nd == 1:
+                return "one_dim"
+            if not -nd <= c["time_axis"] < nd:
+                return "time_axis_out_of_range"
+            if axis % nd == c["time_axis"] % nd:
+                return "axis_eq_time_axis"
+            if c["pad"] == "bad" and shape[c["time_axis"]] % c["num_vectors"]:
+                return "pad_error"
+            return None
+        ta = c["target_axis"]
+        if not (-nd <= ta < nd if c["concatenate"] else -(nd + 1) <= ta <= nd):
+            return "target_axis_out_of_range"
+        if shape[axis] == 0:
+            return "empty_filtered_axis"
+        return None
+
+    def tags(self, L, hist, what, **kw):
+        nd = len(L[0])
+        c = self.cfg
+        refused = [h for h in hist if self.kind(list(h[:4]) + (["list"] if len(h) > 4 else [])) is not None]
+        last = refused[-1]
+        t = dict(proc=self.proc, history=True, sub="refusals", what=what, dtype_kind=_kindof(L[2]),
+                 after=self.kind(list(last[:4]) + (["list"] if len(last) > 4 else [])),
+                 refused_other_ndim=bool(len(last[0]) != nd),
+                 negative_config_axis=bool((c["time_axis"] if self.proc == "Stack" else c["target_axis"]) < 0))
+        t.update(kw)
+        return t
+
+    @staticmethod
+    def key(L):
+        return (tuple(L[0]), L[1], L[2], bool(L[3])) + (("list",) if len(L) > 4 else ())
+
+    def outside(self, obj, L, var):
+        """a call outside the domain: made, outcome recorded, not judged"""
+        x = _data(self.seed, tuple(L[0]), L[2], var)
+        arg = x.tolist() if len(L) > 4 else np.array(x, copy=True)
+        r = computers.call(obj.apply, arg, L[1], bool(L[3]))
+        return r[0] if r[0] == "ok" else r[1]
+
+
+def _run_refusal(H, seq):
+    obj = H.make()
+    attrs = _public(obj)
+    viol, obs, hist = [], [], ()
+    case = dict(proc=H.proc, history=True, config=H.cfg, part="refusals", ops=[list(l) for l in seq])
+    for i, L in enumerate(seq):
+        k = H.kind(L)
+        if k is None:
+            if any(H.kind(list(h[:4]) + (["list"] if len(h) > 4 else [])) is not None for h in hist):
+                v, o = H.call(obj, L, hist, i)
+                for w in v:
+                    w["case"] = case
+                viol.extend(v)
+                obs.append(("valid", o))
+            else:
+                computers.call(obj.apply, np.array(H.exp[(H.key(L), i)]["x"], copy=True), L[1], bool(L[3]))
+            refused = False
+        else:
+            out = H.outside(obj, L, i)
+            obs.append((k, out))
+            refused = out != "ok"
+        now = _public(obj)
+        if now != attrs:
+            for name in sorted(set(now) | set(attrs)):
+                if now.get(name, "<absent>") != attrs.get(name, "<absent>"):
+                    viol.append(core.violation(
+                        dict(proc=H.proc, history=True, sub="refusals", what="attribute_changed", attr=name,
+                             call_refused=bool(refused), call_outside_domain=k is not None),
+                        "call %d of %r on one %s object (%s): attribute %s read %r after construction and reads %r "
+                        "now" % (i + 1, [list(l) for l in seq], H.proc, H.cfg, name, attrs.get(name, "<absent>"),
+                                 now.get(name, "<absent>")), case))
+            attrs = now  # report a change once
+        hist = hist + (H.key(L),)
+    return viol, obs
+
+
+def _eval_refusals(cfg, seed, replay_ops=None):
+    H = _Refusals(cfg, seed)
+    if replay_ops is not None:
+        viol, _ = _run_refusal(H, replay_ops)
+        return core.result(viol)
+    viol, obs = list(H.fresh_viol), set()
+    seqs = calls = kinds = 0
+    out_small = [L for L in H.small if H.kind(L) is not None]
+    valid = [L for L in H.letters if H.kind(L) is None]
+    kinds = set(H.kind(L) for L in out_small)
+    for a in H.small:
+        for b in H.small:
+            if H.kind(a) is None and H.kind(b) is None:
+                continue
+            for c in valid:
+                v, o = _run_refusal(H, (a, b, c))
+                seqs += 1
+                calls += 3
+                viol.extend(v)
+                obs.update(o)
+            if len(viol) >= 60:
+                break
+        if len(viol) >= 60:
+            break
+    seen, uniq = set(), []
+    for v in viol:
+        h = core.sig_hash(v["tags"])
+        if h not in seen:
+            seen.add(h)
+            uniq.append(v)
+    return core.result(uniq, evals=seqs, nontrivial_count=seqs, obs=sorted(map(str, obs)), obs_is_set=True,
+                       impl_calls=calls,
+                       sample=dict(config=cfg, letters=len(H.letters), first_two_from=len(H.small),
+                                   outside_domain=len(out_small), kinds=sorted(kinds), last_from=len(valid),
+                                   sequences=seqs))
+
+
+def _refusal_configs():
+    out = []
+    for nv in (2, 3):
+        for time_axis in (0, 1, -1, -2, -3):
+            for pad in (None, "edge", "bad"):
+                out.append(dict(proc="Stack", num_vectors=nv, time_axis=time_axis, pad=pad))
+    for concat in (True, False):
+        for ta in (-1, 0, 2, -3):
+            for nd, window, mode in ((1, 2, "reflect"), (2, 1, "edge")):
+                out.append(dict(proc="Deltas", num_deltas=nd, concatenate=concat, target_axis=ta, window=window,
+                                mode=mode))
+    out.sort(key=lambda c: c["proc"] != "Deltas")
+    return out
+
+
+def _replay_any(case, seed, tier):
+    if case.get("part") == "refusals":
+        return _eval_refusals(case["config"], seed, replay_ops=case["ops"])
+    if case.get("history"):
+        return _replay_history(case, seed, tier)
+    return (_replay_deltas if case["proc"] == "Deltas" else _replay_stack)(case, seed)
+
+
 def _cost(pt):
     return -len(pt[0]) * int(np.prod([max(1, n) for n in pt[0]]))
 
@@ -1058,4 +1418,40 @@ def subchecks(tier, seed):
                       stack_T=list(PM_STACK_T), stack_num_vectors=list(PM_STACK_NV),
                       stack_modes=[str(m) for m in PM_STACK_MODES], dtype=list(PM_DTYPES)),
             replay=lambda case: (_replay_deltas if case["proc"] == "Deltas" else _replay_stack)(case, seed)),
+        core.SubCheck(
+            "routes", _rt_points(), lambda p: _eval_routes(p, seed),
+            "the object TRAVELS between its constructor and apply(): routes %r (copy.copy, copy.deepcopy, pickle "
+            "round trip with the highest protocol / protocol 2, 'used' = one apply() on another tensor first, 'lent' "
+            "= a shallow copy was made and used, the object itself goes on), every constructor argument "
+            "non-default.  Deltas at shapes %r x {float64,int16} x axis x context_window {1,3}: pad_mode in %r "
+            "(every kind of numpy.pad keyword, scalar and (before, after) pair, callables with a keyword) x "
+            "num_deltas {1,2} x (concatenate, target_axis) in {(T,0),(T,-ndim),(F,0),(F,-1),(F,-ndim-1)}; Stack at "
+            "shapes %r x {float64,int16} x every time_axis (negative too): num_vectors {2,3,4} x feature axis x "
+            "pad_mode in %r.  Oracle on every route: the reference model for the as-constructed arguments; a route "
+            "that itself raises is skipped; non-trivial = a route other than 'constructed'" % (
+                list(ROUTES), [list(x) for x in RT_DELTAS_SHAPES], list(RT_DELTAS_MODES),
+                [list(x) for x in RT_STACK_SHAPES], [str(m) for m in RT_STACK_MODES]),
+            axes=dict(routes=list(ROUTES), deltas_shapes=[list(x) for x in RT_DELTAS_SHAPES],
+                      deltas_modes=list(RT_DELTAS_MODES), stack_shapes=[list(x) for x in RT_STACK_SHAPES],
+                      stack_modes=[str(m) for m in RT_STACK_MODES], dtype=list(RT_DTYPES)),
+            replay=lambda case: (_replay_deltas if case["proc"] == "Deltas" else _replay_stack)(case, seed),
+            chunk=1),
+        core.SubCheck(
+            "refusals", _refusal_configs(), lambda c: _eval_refusals(c, seed),
+            "ONE object per configuration, every sequence (a, b, c) of apply() calls with a, b from the float64 / "
+            "non-negative-axis letters, at least one of them OUTSIDE the property's domain for the configuration "
+            "(Stack: feature axis == time axis, 1-D tensor, time_axis / axis the tensor does not have, numpy.pad "
+            "refusing the keywords where padding is needed; Deltas: target_axis the tensor does not have, empty "
+            "filtered axis; both: 0-d tensor, a list), and c any letter inside it (shapes of 1..4 dimensions x "
+            "every axis value x (float64, copy) / (int16, in_place)).  Not judged: what a call outside the domain "
+            "does.  Judged: every call inside the domain after one outside it equals a fresh object's result "
+            "(bit-identical, else the reference model), and the public attributes of the object read after every "
+            "call what they read after construction; non-trivial = every sequence",
+            axes=dict(stack_config=dict(num_vectors=[2, 3], time_axis=[0, 1, -1, -2, -3],
+                                        pad_mode=["None", "edge", "edge + constant_values (numpy.pad refuses)"]),
+                      deltas_config=dict(concatenate=[True, False], target_axis=[-1, 0, 2, -3],
+                                         rest=["num_deltas 1, window 2, reflect", "num_deltas 2, window 1, edge"]),
+                      stack_shapes=[list(x) for x in RF_STACK_SHAPES] + [[], [3], "list"],
+                      deltas_shapes=[list(x) for x in RF_DELTAS_SHAPES] + [[], "list"]),
+            replay=lambda case: _replay_any(case, seed, tier), chunk=1, kind="explore"),
     ]
